@@ -57,6 +57,9 @@ const (
 
 	// maxWordSize is the longest bit to look forward when creating.
 	maxWordSize = int32(24)
+
+	// maxStep is the max step in 4-bit a 16-bit step can store.
+	maxStep = int32(0xffff)
 )
 
 // SlimTrie is a space efficient Trie index.
